@@ -12,6 +12,7 @@
 #include <stdio.h>
 #include <stdlib.h>
 #include <string.h>
+#include <sys/time.h>
 
 static int unhex(const char *s, unsigned char **out) {
     if (strcmp(s, "-") == 0) { *out = malloc(1); return 0; }
@@ -88,6 +89,24 @@ int main(void) {
             }
             if (!rc) krb5_kt_end_seq_get(ctx, kt, &cur);
             printf("],\"stop\":%d}\n", (int)stop);
+        } else if (!strcmp(tok[0], "rdreq") && nt == 5) {
+            /* rdreq <keytab path> <AP-REQ> <server principal> <client address | ->  : krb5_rd_req as a service would call it */
+            unsigned char *ap, *ad; int nap = unhex(tok[2], &ap), nad = unhex(tok[4], &ad);
+            char name[4200]; snprintf(name, sizeof name, "FILE:%s", tok[1]);
+            krb5_keytab kt; krb5_auth_context ac = NULL; krb5_principal server = NULL; krb5_ticket *tkt = NULL;
+            krb5_error_code rc = krb5_kt_resolve(ctx, name, &kt);
+            if (!rc) rc = krb5_parse_name(ctx, tok[3], &server);
+            if (!rc) rc = krb5_auth_con_init(ctx, &ac);
+            if (!rc && strcmp(tok[4], "-")) { krb5_address a; a.magic = 0; a.addrtype = ADDRTYPE_INET; a.length = nad; a.contents = ad; rc = krb5_auth_con_setaddrs(ctx, ac, NULL, &a); }
+            krb5_data in = {0, nap, (char *)ap};
+            struct timeval t0, t1; gettimeofday(&t0, NULL);
+            if (!rc) rc = krb5_rd_req(ctx, &ac, &in, server, kt, NULL, &tkt);
+            gettimeofday(&t1, NULL);
+            printf("{\"rc\":%d,\"t0\":%lld,\"t1\":%lld,\"out\":\"\"}\n", (int)rc, (long long)t0.tv_sec * 1000 + t0.tv_usec / 1000, (long long)t1.tv_sec * 1000 + t1.tv_usec / 1000 + 1);
+            if (tkt) krb5_free_ticket(ctx, tkt);
+            if (ac) krb5_auth_con_free(ctx, ac);
+            if (server) krb5_free_principal(ctx, server);
+            if (!rc || kt) krb5_kt_close(ctx, kt);
         } else if (!strcmp(tok[0], "cc") && nt == 2) {
             char name[4200]; snprintf(name, sizeof name, "FILE:%s", tok[1]);
             krb5_ccache cc; krb5_cc_cursor cur; krb5_creds c; krb5_principal dp = NULL;
